@@ -4,7 +4,7 @@ Only property theorems live here (helper lemmas: Ymq/Lemmas/Sched.lean).
 
 Model (Ymq/Model/Sched.lean): workers own lists of work units; each `add` to the shared store is
 atomic (write lock); the completion flag is read Relaxed, i.e. possibly stale. A schedule is an
-ARBITRARY list of (worker, stale?) choices, so every interleaving and every pattern of missed
+ARBITRARY list of (worker, stale?, abort answer) choices, so every interleaving and every pattern of missed
 flag updates is quantified over. The store (`σ`, `add`), the completion test (`enough`), the
 invariant and the notion of a good relation are parameters: the relation store of C11 is one
 instance (see `sched_relations_valid` once C11's theorems are imported).
@@ -29,7 +29,7 @@ every prefix). Flags influence only WHICH prefix of each worker's program runs. 
 theorem sched_inv (add : σ → ρ → σ) (enough : σ → Bool) (Inv : σ → Prop) (Good : ρ → Prop)
     (hadd : ∀ s r, Inv s → Good r → Inv (add s r))
     (s0 : σ) (progs : List (List (List ρ))) (h0 : Inv s0)
-    (hgood : ∀ prog ∈ progs, ∀ u ∈ prog, ∀ r ∈ u, Good r) (sched : List (Nat × Bool)) :
+    (hgood : ∀ prog ∈ progs, ∀ u ∈ prog, ∀ r ∈ u, Good r) (sched : List (Nat × Bool × Bool)) :
     let c := run add enough (init s0 progs) sched
     c.store = c.log.foldl add s0 ∧ Inv c.store ∧ (∀ r ∈ c.log, Good r) ∧
       (∀ r ∈ c.log, ∃ prog ∈ progs, ∃ u ∈ prog, r ∈ u) := by
@@ -54,14 +54,14 @@ theorem sched_inv (add : σ → ρ → σ) (enough : σ → Bool) (Inv : σ → 
 /-- the completion flag is monotone under every schedule: once some worker has published
 completion no later action clears it (so a stale reader can only be late, never wrong) -/
 theorem sched_done_monotone (add : σ → ρ → σ) (enough : σ → Bool) (c : Cfg ρ σ)
-    (sched : List (Nat × Bool)) (h : c.done = true) : (run add enough c sched).done = true :=
+    (sched : List (Nat × Bool × Bool)) (h : c.done = true) : (run add enough c sched).done = true :=
   run_done_mono add enough sched c h
 
 /-- termination, part 1 (bounded work): along any schedule the workers perform at most
 `remaining c` actions in total — the number of actions in their finite work lists
 (SIQS `a_ints`, MPQS polynomial blocks, ECM seeds); stale flag reads cannot create work. -/
 theorem sched_bounded_work (add : σ → ρ → σ) (enough : σ → Bool) (c : Cfg ρ σ)
-    (sched : List (Nat × Bool)) (h : allEffective add enough c sched) :
+    (sched : List (Nat × Bool × Bool)) (h : allEffective add enough c sched) :
     sched.length + remaining (run add enough c sched) ≤ remaining c :=
   effective_steps_bounded add enough sched c h
 
@@ -70,16 +70,18 @@ that action strictly decreases the remaining work whatever it reads — no actio
 another worker in the modelled protocol. -/
 theorem sched_progress (add : σ → ρ → σ) (enough : σ → Bool) (c : Cfg ρ σ)
     (h : finished c = false) :
-    ∃ w, ∀ st, remaining (step add enough c w st) < remaining c := by
+    ∃ w, ∀ st ab, remaining (step add enough c w st ab) < remaining c := by
   obtain ⟨w, hw⟩ := progress c h
-  exact ⟨w, fun st => (step_remaining add enough c w st).2 hw⟩
+  exact ⟨w, fun st ab => (step_remaining add enough c w st ab).2 hw⟩
 
 /-! ### non-vacuity: two workers, relations = numbers, store = their sum, invariant = evenness -/
 
 example :
     let progs : List (List (List Nat)) := [[[2, 4], [6]], [[8], [10, 12]]]
     let c := run (· + ·) (fun s => decide (s ≥ 14)) (init 0 progs)
-      [(0, false), (1, false), (1, false), (0, false), (0, false), (1, false), (0, false), (0, true), (1, false)]
+      [(0, false, false), (1, false, false), (0, false, false), (1, false, false), (1, false, false),
+       (0, false, false), (0, false, false), (1, false, false), (0, false, false), (0, true, false),
+       (1, false, false)]
     c.log = [8, 2, 4] ∧ c.store = 14 ∧ c.done = true ∧ finished c = false := by decide
 
 example : ∀ r ∈ ([8, 2, 4] : List Nat), r % 2 = 0 := by decide
